@@ -33,9 +33,10 @@ Statements about the executable model `Xsm/Model/Pythonic.lean` (helper lemmas i
 4. `excludes_builtins_spawn_composites`: no demanded action is a key of the regenerated
    `Tables.builtinAliases`; no demanded guard name comes from anywhere but a `named` leaf (the operators
    `and`/`or`/`not` in object form and `stateIn` are never demanded; a BARE STRING `"and"` is a user
-   predicate by design and is demanded); `spawn_*` in entry/exit/transition action lists is routed to
-   the services. NOT true of the code, hence a counterexample instead of a theorem: a `spawn_*`
-   directive inside an invocation's onDone/onError list is demanded as an action (finding F19e).
+   predicate by design and is demanded); no demanded action is a `spawn_*` directive (`excludes_spawn`):
+   in entry/exit/transition action lists AND in an invocation's onDone/onError lists the directive is
+   routed to the services (`referenced_service_demanded`, `spawn_in_invoke_routed`; the second routing
+   is the repair of finding F19e — before it the directive was demanded as an action there).
 5. `user_action_before_builtin`: in both engines' action executor a user implementation registered
    under a built-in's name runs and the built-in does not. But (finding F19d, `discover_never_binds_builtin`)
    auto-discovery never registers such an implementation, because built-in names are not demanded.
@@ -243,7 +244,7 @@ theorem referenced_action_demanded (m : Machine) (x : SNode) (hx : Sub m.root x)
   rcases List.mem_append.mp ha with h | h
   · exact Or.inl ⟨a, h, rfl, hs, hb⟩
   · obtain ⟨t, ht, hat⟩ := List.mem_flatMap.mp h
-    exact Or.inr ⟨t, ht, a, hat, rfl, hb⟩
+    exact Or.inr ⟨t, ht, a, hat, rfl, hs, hb⟩
 
 /-- the same for a state addressed by its path -/
 theorem referenced_action_demanded_at (m : Machine) (p : Path) (x : SNode) (hx : m.root.at p = some x) (a : ActionRef)
@@ -258,16 +259,32 @@ theorem referenced_guard_demanded (m : Machine) (x : SNode) (hx : Sub m.root x) 
   rw [mem_required_guards]
   exact ⟨x.d, mem_subDefs_of_sub hx, mem_defGuards.mpr ⟨t, ht, g, hg, hn⟩⟩
 
-/-- *Every invoked service, and the service key of every spawn directive of an entry / exit / transition action
-    list, is demanded* -/
+/-- *Every invoked service, and the service key of every spawn directive of ANY action list — entry / exit /
+    transition lists and the onDone / onError lists of the invocations alike (`allActs`) — is demanded* -/
 theorem referenced_service_demanded (m : Machine) (x : SNode) (hx : Sub m.root x) (n : String)
-    (h : (∃ i ∈ x.d.invoke, i.src = some n ∧ n ≠ "") ∨ (∃ a ∈ mainActs x.d, isSpawn a.type = true ∧ spawnKey a.type = n)) :
+    (h : (∃ i ∈ x.d.invoke, i.src = some n ∧ n ≠ "") ∨ (∃ a ∈ allActs x.d, isSpawn a.type = true ∧ spawnKey a.type = n)) :
     n ∈ (required m).services := by
   rw [mem_required_services]
   refine ⟨x.d, mem_subDefs_of_sub hx, mem_defServices.mpr ?_⟩
-  rcases h with h | h
-  · exact Or.inr h
+  rcases h with h | ⟨a, ha, hs, hk⟩
+  · exact Or.inr (Or.inl h)
+  · unfold allActs at ha
+    rcases List.mem_append.mp ha with h | h
+    · exact Or.inl ⟨a, h, hs, hk⟩
+    · obtain ⟨t, ht, hat⟩ := List.mem_flatMap.mp h
+      exact Or.inr (Or.inr ⟨t, ht, a, hat, hs, hk⟩)
+
+/-- … and nothing else is: a demanded service is an invoked source or the key of a spawn directive -/
+theorem demanded_service_referenced (m : Machine) (n : String) (h : n ∈ (required m).services) :
+    ∃ d ∈ subDefs m.root, (∃ i ∈ d.invoke, i.src = some n ∧ n ≠ "")
+      ∨ (∃ a ∈ allActs d, isSpawn a.type = true ∧ spawnKey a.type = n) := by
+  obtain ⟨d, hd, hn⟩ := mem_required_services.mp h
+  refine ⟨d, hd, ?_⟩
+  unfold allActs
+  rcases mem_defServices.mp hn with ⟨a, ha, hs, hk⟩ | h | ⟨t, ht, a, ha, hs, hk⟩
+  · exact Or.inr ⟨a, List.mem_append_left _ ha, hs, hk⟩
   · exact Or.inl h
+  · exact Or.inr ⟨a, List.mem_append_right _ (List.mem_flatMap.mpr ⟨t, ht, ha⟩), hs, hk⟩
 
 /-! ## 4. built-ins, spawn directives and composite guards are not demanded -/
 
@@ -281,7 +298,7 @@ theorem excludes_builtins (m : Machine) (n : String) (h : n ∈ (required m).act
     isBuiltin n = false ∧ canonicalBuiltin n = none := by
   have hb : isBuiltin n = false := by
     obtain ⟨d, _, hd⟩ := mem_required_actions.mp h
-    rcases mem_defActions.mp hd with ⟨_, _, _, _, hb⟩ | ⟨_, _, _, _, _, hb⟩ <;> exact hb
+    rcases mem_defActions.mp hd with ⟨_, _, _, _, hb⟩ | ⟨_, _, _, _, _, _, hb⟩ <;> exact hb
   refine ⟨hb, ?_⟩
   have := isBuiltin_eq_canonical n
   rw [hb] at this
@@ -293,17 +310,14 @@ theorem builtin_table_sample :
     isBuiltin "assign" = true ∧ isBuiltin "log" = true ∧ isBuiltin "raise" = true ∧ isBuiltin "sendTo" = true
     ∧ isBuiltin "xstate.choose" = true ∧ isBuiltin "spawn_child" = false ∧ isBuiltin "myAction" = false := by decide
 
-/-- *A demanded action that is a spawn directive can only come from an invocation's onDone / onError list*: in
-    entry / exit / `on` / `always` / `after` / `onDone` lists `spawn_*` is routed to the services instead. -/
-theorem excludes_spawn_outside_invoke (m : Machine) (n : String) (h : n ∈ (required m).actions) (hs : isSpawn n = true) :
-    ∃ d ∈ subDefs m.root, ∃ t ∈ invTrans d, ∃ a ∈ t.actions, a.type = n := by
-  obtain ⟨d, hd, hn⟩ := mem_required_actions.mp h
-  rcases mem_defActions.mp hn with ⟨_, _, _, hns, _⟩ | ⟨t, ht, a, ha, e, _⟩
-  · rw [hs] at hns; cases hns
-  · exact ⟨d, hd, t, ht, a, ha, e⟩
+/-- *No demanded action is a spawn directive*: in entry / exit / `on` / `always` / `after` / `onDone` lists and in
+    the onDone / onError lists of the invocations `spawn_*` is routed to the services instead
+    (`referenced_service_demanded`). -/
+theorem excludes_spawn (m : Machine) (n : String) (h : n ∈ (required m).actions) : isSpawn n = false := by
+  obtain ⟨d, _, hn⟩ := mem_required_actions.mp h
+  rcases mem_defActions.mp hn with ⟨_, _, _, hs, _⟩ | ⟨_, _, _, _, _, hs, _⟩ <;> exact hs
 
-/-- … and there it IS demanded as an action, its service is not (finding F19e): the state
-    `{"invoke": {"src": "svc", "onDone": {"actions": ["spawn_worker"]}}}` -/
+/-- the witness of finding F19e, the state `{"invoke": {"src": "svc", "onDone": {"actions": ["spawn_worker"]}}}` -/
 def spawnInInvoke : StateDef :=
   { (default : StateDef) with
     invoke := [{ id := "m.a", src := some "svc"
@@ -311,8 +325,10 @@ def spawnInInvoke : StateDef :=
                               actions := [{ type := "spawn_worker" }], reenter := false, forbidden := false }]
                  onError := [] }] }
 
-theorem spawn_in_invoke_counterexample :
-    defActions spawnInInvoke = ["spawn_worker"] ∧ defServices spawnInInvoke = ["svc"]
+/-- … with the repaired routing: no action is demanded, the services `svc` and `worker` are (before the repair of
+    F19e: the action `spawn_worker` and the service `svc` only) -/
+theorem spawn_in_invoke_routed :
+    defActions spawnInInvoke = [] ∧ defServices spawnInInvoke = ["svc", "worker"]
     ∧ isSpawn "spawn_worker" = true ∧ spawnKey "spawn_worker" = "worker" := by decide
 
 /-- the same directive in an entry list is routed correctly -/
@@ -333,9 +349,9 @@ theorem guardNames_example :
 /-- all three exclusions at once, for a demanded name of each kind -/
 theorem excludes_builtins_spawn_composites (m : Machine) :
     (∀ n ∈ (required m).actions, isBuiltin n = false)
-    ∧ (∀ n ∈ (required m).actions, isSpawn n = true → ∃ d ∈ subDefs m.root, ∃ t ∈ invTrans d, ∃ a ∈ t.actions, a.type = n)
+    ∧ (∀ n ∈ (required m).actions, isSpawn n = false)
     ∧ (∀ n ∈ (required m).guards, ∃ d ∈ subDefs m.root, ∃ t ∈ mainTrans d ++ invTrans d, ∃ g, t.guard = some g ∧ NamedLeaf n g) := by
-  refine ⟨fun n h => (excludes_builtins m n h).1, fun n h hs => excludes_spawn_outside_invoke m n h hs, ?_⟩
+  refine ⟨fun n h => (excludes_builtins m n h).1, fun n h => excludes_spawn m n h, ?_⟩
   intro n h
   obtain ⟨d, hd, hn⟩ := mem_required_guards.mp h
   exact ⟨d, hd, mem_defGuards.mp hn⟩
